@@ -66,7 +66,22 @@ pub fn c01_isolation(cx: &mut Ctx) {
         }
     }
     // (b) one client transaction -> one backend connection
-    let mut conns_of_txn: BTreeMap<(u32, u32), BTreeSet<usize>> = BTreeMap::new();
+    // A transaction as the client knows it: the program's transaction label, cut wherever the
+    // client was told that no transaction is open (a BEGIN refused by the pooler, say: what the
+    // program sends next are transactions of their own).
+    let mut part_of_tag: BTreeMap<Tag, u32> = BTreeMap::new();
+    for c in h.clients.values() {
+        let mut part = 0u32;
+        for s in &c.steps {
+            for t in &s.tags {
+                part_of_tag.entry(*t).or_insert(part);
+            }
+            if s.op == "send" && !matches!(s.outcome, StepOutcome::Ready(b'T') | StepOutcome::Ready(b'E')) {
+                part += 1;
+            }
+        }
+    }
+    let mut conns_of_txn: BTreeMap<(u32, u32, u32), BTreeSet<usize>> = BTreeMap::new();
     for s in &h.stmts {
         if !matches!(s.rec.via, Via::Simple | Via::Execute) {
             continue;
@@ -75,10 +90,10 @@ pub fn c01_isolation(cx: &mut Ctx) {
             if is_attacker_tag(t.c) {
                 continue;
             }
-            conns_of_txn.entry((t.c, t.t)).or_default().insert(s.conn);
+            conns_of_txn.entry((t.c, t.t, part_of_tag.get(t).cloned().unwrap_or(0))).or_default().insert(s.conn);
         }
     }
-    for ((c, t), conns) in &conns_of_txn {
+    for ((c, t, _), conns) in &conns_of_txn {
         if conns.len() > 1 {
             let session = h.clients.get(c).map(|cr| cx.pool_mode(&cr.database, &cr.user) == "session").unwrap_or(false);
             let fp = if session { "C01/session_split" } else { "C01/transaction_split" };
@@ -87,7 +102,7 @@ pub fn c01_isolation(cx: &mut Ctx) {
     }
     // session mode: the whole session on one connection
     let mut conns_of_client: BTreeMap<u32, BTreeSet<usize>> = BTreeMap::new();
-    for ((c, _), conns) in &conns_of_txn {
+    for ((c, _, _), conns) in &conns_of_txn {
         conns_of_client.entry(*c).or_default().extend(conns.iter().cloned());
     }
     for (c, conns) in &conns_of_client {
